@@ -13,10 +13,12 @@ def KeepsAt {α : Type} (p : α → Prop) (f : Conf → α) (k : Nat) (st st' : 
 /-- `f` does not look at the fields that the bookkeeping operations write -/
 structure Insens {α : Type} (f : Conf → α) : Prop where
   pending : ∀ (c : Conf) x, f { c with pending := x } = f c
-  dataCbs : ∀ (c : Conf) x, f { c with dataCbs := x } = f c
   errNo : ∀ (c : Conf) x, f { c with errNo := x } = f c
   valid : ∀ (c : Conf) x, f { c with valid := x } = f c
   accept : ∀ (c : Conf) a b d, f { c with valid := true, hasCf := a, id := b, useV2 := d } = f c
+
+/-- `f` does not look at the registered data callbacks -/
+def CbInsens {α : Type} (f : Conf → α) : Prop := ∀ (c : Conf) x, f { c with dataCbs := x } = f c
 
 /-- … nor at the acknowledged flags -/
 structure InsensFlags {α : Type} (f : Conf → α) : Prop where
@@ -236,7 +238,7 @@ theorem start_toc {st : St} {h : Nat} {r : Res} (hr : start st h = some r) : r.s
 
 variable {q : Option Toc → Prop}
 
-theorem slConnectLoop_keeps (hI : Insens f) (hadd : AddKeeps q p f k) (s : Nat) : ∀ (hs : List Nat) (st : St) (r : Res),
+theorem slConnectLoop_keeps (hI : Insens f) (hC : CbInsens f) (hadd : AddKeeps q p f k) (s : Nat) : ∀ (hs : List Nat) (st : St) (r : Res),
     q st.toc → slConnectLoop s hs st = some r → KeepsAt p f k st r.st := by
   intro hs
   induction hs with
@@ -255,7 +257,7 @@ theorem slConnectLoop_keeps (hI : Insens f) (hadd : AddKeeps q p f k) (s : Nat) 
         · cases hr
         · rename_i c hc
           have k2 : KeepsAt p f k r1.st (r1.st.setConf h { c with dataCbs := callerAdd c.dataCbs s }) :=
-            keepsAt_setConf hc (fun _ => hI.dataCbs c _)
+            keepsAt_setConf hc (fun _ => hC c _)
           split at hr
           · cases hr
           · rename_i r2 h2
@@ -269,7 +271,7 @@ theorem slConnectLoop_keeps (hI : Insens f) (hadd : AddKeeps q p f k) (s : Nat) 
                 have t2 : r2.st.toc = st.toc := by rw [start_toc h2]; exact t1
                 exact keepsAt_trans k1 (keepsAt_trans k2 (keepsAt_trans k3 (ih r2.st r3 (by rw [t2]; exact hq) h3)))
 
-theorem slConnect_keeps (hI : Insens f) (hadd : AddKeeps q p f k) {st : St} {s : Nat} {r : Res}
+theorem slConnect_keeps (hI : Insens f) (hC : CbInsens f) (hadd : AddKeeps q p f k) {st : St} {s : Nat} {r : Res}
     (hq : q st.toc) (hr : slConnect st s = some r) : KeepsAt p f k st r.st := by
   unfold slConnect at hr
   split at hr
@@ -280,7 +282,7 @@ theorem slConnect_keeps (hI : Insens f) (hadd : AddKeeps q p f k) {st : St} {s :
       split at hr
       · cases hr
       · rename_i r1 h1
-        have k0 := slConnectLoop_keeps (p := p) (k := k) hI hadd s _ { st with discCbs := callerAdd st.discCbs s } r1 hq h1
+        have k0 := slConnectLoop_keeps (p := p) (k := k) hI hC hadd s _ { st with discCbs := callerAdd st.discCbs s } r1 hq h1
         have k1 : KeepsAt p f k st r1.st := keepsAt_trans (keepsAt_of_confs rfl) k0
         split at hr
         · cases hr; exact k1
@@ -288,7 +290,7 @@ theorem slConnect_keeps (hI : Insens f) (hadd : AddKeeps q p f k) {st : St} {s :
           · cases hr
           · cases hr; exact keepsAt_trans k1 (keepsAt_of_confs rfl)
 
-theorem slDisconnectLoop_keeps (hI : Insens f) (s : Nat) : ∀ (hs : List Nat) (st : St) (r : Res),
+theorem slDisconnectLoop_keeps (hI : Insens f) (hC : CbInsens f) (s : Nat) : ∀ (hs : List Nat) (st : St) (r : Res),
     slDisconnectLoop s hs st = some r → KeepsAt p f k st r.st := by
   intro hs
   induction hs with
@@ -318,10 +320,10 @@ theorem slDisconnectLoop_keeps (hI : Insens f) (s : Nat) : ∀ (hs : List Nat) (
                   cases hr
                   simp only
                   rw [e2] at hc h3
-                  exact keepsAt_trans (keepsAt_setConf hc (fun _ => hI.dataCbs c _)) (ih _ _ h3)
+                  exact keepsAt_trans (keepsAt_setConf hc (fun _ => hC c _)) (ih _ _ h3)
               · cases hr; simp only; rw [e2]; exact keepsAt_refl st
 
-theorem slDisconnect_keeps (hI : Insens f) {st : St} {s : Nat} {r : Res}
+theorem slDisconnect_keeps (hI : Insens f) (hC : CbInsens f) {st : St} {s : Nat} {r : Res}
     (hr : slDisconnect st s = some r) : KeepsAt p f k st r.st := by
   unfold slDisconnect at hr
   split at hr
@@ -331,7 +333,7 @@ theorem slDisconnect_keeps (hI : Insens f) {st : St} {s : Nat} {r : Res}
     · split at hr
       · cases hr
       · rename_i r1 h1
-        have k1 := slDisconnectLoop_keeps (p := p) (k := k) hI s _ _ _ h1
+        have k1 := slDisconnectLoop_keeps (p := p) (k := k) hI hC s _ _ _ h1
         split at hr
         · cases hr; exact k1
         · split at hr
@@ -340,20 +342,20 @@ theorem slDisconnect_keeps (hI : Insens f) {st : St} {s : Nat} {r : Res}
             · cases hr; exact keepsAt_trans k1 (keepsAt_of_confs rfl)
           · cases hr; exact k1
 
-theorem slDisconnected_keeps (hI : Insens f) {st : St} {s : Nat} {r : Res}
+theorem slDisconnected_keeps (hI : Insens f) (hC : CbInsens f) {st : St} {s : Nat} {r : Res}
     (hr : slDisconnected st s = some r) : KeepsAt p f k st r.st := by
   unfold slDisconnected at hr
   split at hr
   · cases hr
   · rename_i r1 h1
-    have k1 := slDisconnect_keeps (p := p) (k := k) hI h1
+    have k1 := slDisconnect_keeps (p := p) (k := k) hI hC h1
     split at hr
     · cases hr; exact k1
     · split at hr
       · cases hr
       · cases hr; exact keepsAt_trans k1 (keepsAt_of_confs rfl)
 
-theorem callDisconnected_keeps (hI : Insens f) : ∀ (ss : List Nat) (st : St) (r : Res),
+theorem callDisconnected_keeps (hI : Insens f) (hC : CbInsens f) : ∀ (ss : List Nat) (st : St) (r : Res),
     callDisconnected ss st = some r → KeepsAt p f k st r.st := by
   intro ss
   induction ss with
@@ -364,7 +366,7 @@ theorem callDisconnected_keeps (hI : Insens f) : ∀ (ss : List Nat) (st : St) (
     split at hr
     · cases hr
     · rename_i r1 h1
-      have k1 := slDisconnected_keeps (p := p) (k := k) hI h1
+      have k1 := slDisconnected_keeps (p := p) (k := k) hI hC h1
       split at hr
       · cases hr; exact k1
       · split at hr
@@ -401,6 +403,13 @@ def Op.editsVars (k : Nat) : Op → Bool
   | .addMem h _ _ _ _ => h == k
   | _ => false
 
+/-- can the operation register / unregister SyncLogger data callbacks? -/
+def Op.touchesSubs : Op → Bool
+  | .slConnect _ => true
+  | .slDisconnect _ => true
+  | .linkLost => true
+  | _ => false
+
 /-- is the operation a packet on the settings channel? -/
 def Op.isSettingsRx : Op → Bool
   | .rx chan _ => chan == Gen.C05.chanSettings
@@ -410,7 +419,12 @@ def Op.isSettingsRx : Op → Bool
 flags) and `add_config` (handled by `hadd`) keeps `f` at `k`. -/
 theorem step_keeps (hI : Insens f) (hadd : AddKeeps q p f k) (st : St) (op : Op) (r : Res) (hq : q st.toc)
     (hs : step st op = some r) (hedit : op.editsVars k = false)
-    (hrx : InsensFlags f ∨ op.isSettingsRx = false) : KeepsAt p f k st r.st := by
+    (hrx : InsensFlags f ∨ op.isSettingsRx = false) (hcb : CbInsens f ∨ op.touchesSubs = false) : KeepsAt p f k st r.st := by
+  have hC : ∀ {o : Op}, (CbInsens f ∨ o.touchesSubs = false) → o.touchesSubs = true → CbInsens f := by
+    intro o h ht
+    rcases h with h | h
+    · exact h
+    · rw [ht] at h; cases h
   cases op with
   | newConf ms => simp only [step] at hs; cases hs; exact newConf_keeps st ms
   | addVar h n t =>
@@ -459,15 +473,15 @@ theorem step_keeps (hI : Insens f) (hadd : AddKeeps q p f k) (st : St) (op : Op)
   | linkUp => simp only [step] at hs; cases hs; exact keepsAt_of_confs rfl
   | linkLost =>
     simp only [step, linkLost] at hs
-    have k0 := callDisconnected_keeps (p := p) (k := k) hI _ _ r hs
+    have k0 := callDisconnected_keeps (p := p) (k := k) hI (hC hcb rfl) _ _ r hs
     exact keepsAt_trans (keepsAt_of_confs rfl) k0
   | newSl confs =>
     simp only [step] at hs
     split at hs
     · cases hs; exact keepsAt_of_confs rfl
     · cases hs
-  | slConnect s => exact slConnect_keeps hI hadd hq hs
-  | slDisconnect s => exact slDisconnect_keeps hI hs
+  | slConnect s => exact slConnect_keeps hI (hC hcb rfl) hadd hq hs
+  | slDisconnect s => exact slDisconnect_keeps hI (hC hcb rfl) hs
   | slNext s => exact slNext_keeps hs
 
 /-! ### what `add_config` keeps -/
@@ -506,8 +520,8 @@ def flagsOf (c : Conf) : Bool × Bool := (c.added, c.started)
 /-- the variable list and the names still waiting for their type -/
 def varsOf (c : Conf) : List LVar × List Nat := (c.variables, c.defaults)
 
-theorem insens_flags : Insens flagsOf := ⟨fun _ _ => rfl, fun _ _ => rfl, fun _ _ => rfl, fun _ _ => rfl, fun _ _ _ _ => rfl⟩
-theorem insens_vars : Insens varsOf := ⟨fun _ _ => rfl, fun _ _ => rfl, fun _ _ => rfl, fun _ _ => rfl, fun _ _ _ _ => rfl⟩
+theorem insens_flags : Insens flagsOf := ⟨fun _ _ => rfl, fun _ _ => rfl, fun _ _ => rfl, fun _ _ _ _ => rfl⟩
+theorem insens_vars : Insens varsOf := ⟨fun _ _ => rfl, fun _ _ => rfl, fun _ _ => rfl, fun _ _ _ _ => rfl⟩
 theorem insensFlags_vars : InsensFlags varsOf := ⟨fun _ _ => rfl, fun _ _ => rfl⟩
 
 theorem addVariable_flags {c c' : Conf} {n : Nat} {t : String} (h : c.addVariable n t = .ok c') : flagsOf c' = flagsOf c := by
